@@ -25,6 +25,12 @@ THEOREMS = [
     "GeoVerif.Ws.insert_frame",
     "GeoVerif.Ws.linksL_insertL",
     "GeoVerif.Ws.open_close_noop",
+    "GeoVerif.Ws.erase_frame",
+    "GeoVerif.Ws.mapEnts_frame",
+    "GeoVerif.Ws.cleanPGs_noop",
+    "GeoVerif.Ws.remove_frame",
+    "GeoVerif.Ws.insert_frame_back",
+    "GeoVerif.Ws.move_frame",
 ]
 RULE = (
     "histories as for C01; after every successful call per-node digests of the real file are diffed against the previous ones and "
@@ -39,8 +45,11 @@ LEVEL_TEXT = (
     "Lean frame theorems on the model: an assignment (attribute, array, name, flag, property-group edit) changes only the target's "
     "stored node (update_frame and corollaries), a creation or copy leaves every old node other than the receiving parent's "
     "unchanged (insert_frame), open+close without mutation is the identity (open_close_noop). On the real file the changed set of "
-    "every single call is measured by content digests and must lie inside the operation's footprint. Partial: the frame theorems "
-    "for erase/move are covered by the digest oracle and the structural correspondence, not yet proved."
+    "every single call is measured by content digests and must lie inside the operation's footprint. Removals and re-parenting: "
+    "every node stored afterwards is an old node with the same content, its child entries minus those for the removed/moved entity "
+    "(plus one for the new parent), property groups scrubbed of removed data (remove_frame, move_frame; cleanPGs_noop: untouched "
+    "when no group lists removed data). Calls outside the tree model (attached files, images, comments) are judged by the digest "
+    "oracle only."
 )
 LEVEL_NOTE = "Trusted: Lean kernel, harness digests, h5py."
 TECHNIQUE = "Lean 4 frame theorems on the tree/file model + per-call content-digest diff of the real file against the operation footprint"
